@@ -425,6 +425,19 @@ theorem lookupDev_applyBlocks (g : Nat → P2.Params → DS → DS) :
     · have hlt : i0 < i := hhead (i, items) h
       rw [ih _ htail i items h, lookupDev_updDev_other _ _ (by omega)]
 
+theorem applyPendingEco_inv {pt : Product} {old0 : DS} (_h0 : ∀ e ∈ old0, EntryOK pt e ∧ OnEcomax e) :
+    ∀ (pending : List P2.Params) (ds : DS), (∀ e ∈ ds, EntryOK pt e ∧ OnEcomax e) →
+      ∀ e ∈ applyPendingEco pt ds pending, EntryOK pt e ∧ OnEcomax e := by
+  intro pending
+  induction pending with
+  | nil => intro ds h; exact h
+  | cons items rest ih =>
+    intro ds h
+    unfold applyPendingEco
+    apply ih
+    exact applyItems_inv (P := fun e => EntryOK pt e ∧ OnEcomax e) (fun e t h => h)
+      (fun d pos t hd => ⟨entryOK_new (tr t) 0 0 hd, by simp [OnEcomax, newEntry, mkEcomax]⟩) h items ds h
+
 theorem setValue_inv {P : Entry → Prop} (hP : ∀ e t, P e → P { e with triple := t }) {ds : DS} {name : String}
     {e : Entry} (hds : ∀ x ∈ ds, P x) (hf : find ds name = some e) (v : Nat) :
     ∀ x ∈ setEntry ds { e with triple := { e.triple with value := v } }, P x := by
@@ -435,19 +448,31 @@ theorem setValue_inv {P : Entry → Prop} (hP : ∀ e t, P e → P { e with trip
 
 theorem step_ok {pt : Product} {w : World} (h : WorldOK pt w) (ev : Event) : WorldOK pt (step pt w ev).1 := by
   cases ev with
+  | uid =>
+    simp only [step]
+    split
+    · exact h
+    · exact ⟨applyPendingEco_inv h.eco _ _ h.eco, applyMixers_inv _ _ h.mix, h.thr⟩
   | ecomaxParams msg =>
     simp only [step]
     split
     · exact h
     · next items _ _ =>
-      refine ⟨?_, h.mix, h.thr⟩
-      exact applyItems_inv (P := fun e => EntryOK pt e ∧ OnEcomax e) (fun e t h => h)
-        (fun d pos t hd => ⟨entryOK_new (tr t) 0 0 hd, by simp [OnEcomax, newEntry]⟩) h.eco items _ h.eco
+      split
+      · refine ⟨?_, h.mix, h.thr⟩
+        exact applyItems_inv (P := fun e => EntryOK pt e ∧ OnEcomax e) (fun e t h => h)
+          (fun d pos t hd => ⟨entryOK_new (tr t) 0 0 hd, by simp [OnEcomax, newEntry, mkEcomax]⟩) h.eco items _ h.eco
+      · exact ⟨h.eco, h.mix, h.thr⟩
   | mixerParams msg =>
     simp only [step]
     split
     · exact h
-    · next blocks _ _ => exact ⟨h.eco, applyMixers_inv blocks _ h.mix, h.thr⟩
+    · next blocks _ _ =>
+      split
+      · exact ⟨h.eco, applyMixers_inv blocks _ h.mix, h.thr⟩
+      · refine ⟨h.eco, ?_, h.thr⟩
+        exact applyBlocks_inv (Q := fun i ds => ∀ e ∈ ds, EntryOK pt e ∧ OnMixer i e) (fun _ _ _ hq => hq)
+          (fun i e he => by cases he) blocks _ h.mix
   | thermostatsAvailable n => exact ⟨h.eco, h.mix, h.thr⟩
   | thermostatParams msg =>
     simp only [step]
